@@ -68,7 +68,8 @@ def run(tier):
     for kind in ("VI", "PI", "RVI", "PVI", "SAVI"):
         base = next(c for _, k, c, e in grid if k == kind and e == "ok" and c["eps"] == "small" and c["problem"] == "forest"
                     and c["S"] == 4 and c["p"] == "mid" and c["mbs"] == 64 and c["verbose"] == 0
-                    and c["gamma"] == ("one" if kind == "RVI" else "mid"))
+                    and c["gamma"] == ("one" if kind == "RVI" else "mid") and c["test"] == "span"
+                    and c["freq"] == 0 and c["keep"] == 1)
         gid += 1
         order_cases.append([{"kind": kind, "route": "kwargs", "c": base, "order": "solver_first", "gid": gid, "expected": "ok"}])
         order_cases.append([{"kind": kind, "route": "kwargs", "c": base, "order": "problem_first", "gid": gid, "expected": "ok"}])
